@@ -149,7 +149,7 @@ class Builder:
             return out
         if kind in ('deque', 'dequesub'):
             ml = params.get('maxlen')
-            maxlen = None if ml is None else (len(c) if ml == 'len' else len(c) + 1)
+            maxlen = None if ml is None else (len(c) if ml == 'len' else 1000 if ml == 'big' else len(c) + 1)
             cls = deque if kind == 'deque' else un.DequeSub
             hist = params.get('hist')
             if hist == 'rotate' and maxlen is not None:
@@ -340,7 +340,8 @@ def variants(kind, arity, full=True):  # noqa: C901
         if not full:
             return [{'maxlen': 'len+1'}]
         return [{'maxlen': None}, {'maxlen': 'len'}, {'maxlen': 'len+1'},
-                {'maxlen': 'len', 'hist': 'rotate'}, {'maxlen': 'len+1', 'hist': 'rotate'}]
+                {'maxlen': 'len', 'hist': 'rotate'}, {'maxlen': 'len+1', 'hist': 'rotate'},
+                {'maxlen': 'big'}]  # 1000: an int outside CPython's small-int cache (a fresh object on every read)
     if kind == 'cls':
         return [{'c': c} for c in (CLASS_LEAVES if full else CLASS_LEAVES[:1])]
     if kind == 'cn':
@@ -555,7 +556,7 @@ def dict_variant(d):
             params['factory'] = 'list'
         return [nk, params, list(reversed(ch))]
     if kind == 'deque':
-        params['maxlen'] = {None: 'len+1', 'len': None, 'len+1': 'len'}[params.get('maxlen')]
+        params['maxlen'] = {None: 'len+1', 'len': None, 'len+1': 'len', 'big': None}[params.get('maxlen')]
         params.pop('hist', None)
         return [kind, params, ch]
     return [kind, params or None, ch]
